@@ -19,7 +19,7 @@ def run(ctx):
     obligations, discharged, names = core.standard_prelude(ctx, ["ZCV.Props.C01"])
     n_s, n_t = (1500, 60) if ctx.thorough() else (120, 30)
     cases = cfgstream.gen_cases(ctx, n_s, n_t)
-    cfgstream.evaluate(ctx, cases)
+    cfgstream.evaluate(ctx, cases, with_spec=True)
     bad = []
     for c in cases:
         o = obs(c.out)
@@ -28,6 +28,13 @@ def run(ctx):
             ctx.count("fault:" + f.split("@")[0])
         if c.faults or any(l.lstrip().startswith("<") for l in c.lines):
             ctx.nontriv((id(c.sd), tuple(c.lines)))
+        # ORACLE: the declarative spec (ZCV/Spec/Conforms.lean: `conforms`) evaluated on the tree of the text
+        if c.spec is not None and not any("%import" in l for l in c.lines):
+            sp = c.spec
+            exp = "reject" if sp[0] in ("parse-reject", "reject") else "accept" if sp[0] == "accept" else None
+            if exp is not None and o in ("accept", "reject") and o != exp:
+                ctx.violate("the loader %ss a text that %s the schema (Conforms)" % (o, "conforms to" if exp == "accept" else "does not conform to"),
+                            dict(c.replay(), impl=c.out, spec=str(sp[0])), signature="C01:%s-but-spec-%s" % (o, exp))
         if c.model is None:
             continue
         m = obs(c.model)
@@ -46,8 +53,9 @@ def run(ctx):
         cfgstream.evaluate(ctx, [c])
     for c in bad:
         o, m = obs(c.out), obs(c.model)
-        ctx.violate("the loader %ss a text that %s the schema" % (o, "conforms to" if m == "accept" else "does not conform to"),
-                    dict(c.replay(), impl=c.out, model=c.model[:6]), signature="C01:%s-but-%s" % (o, m))
+        if not any(v.replay.get("lines") == c.lines for v in ctx.violations):
+            ctx.violate("the loader %ss a text that the model of the loader %ss" % (o, m),
+                        dict(c.replay(), impl=c.out, model=c.model[:6]), signature="C01:%s-but-%s" % (o, m))
     if cases:
         ctx.sample({"lines": cases[0].lines, "faults": cases[0].faults, "impl": obs(cases[0].out)})
         ctx.sample({"schema_xml": cases[-1].replay()["schema_xml"], "lines": cases[-1].lines, "faults": cases[-1].faults,
